@@ -28,9 +28,10 @@ RULE = ("case = a module graph built from maps with exactly known derivatives (l
         "inputs or complex data) and every perturbed input has a non-zero derivative entry. Distinct = sha1 of the "
         "canonical case JSON.")
 ASSUMPTIONS = [
-    "tuples arrive in the documented loop order: inputs in fromsig order, entries in C order, for each entry one "
+    "tuples arrive in the loop order of the code: inputs in fromsig order, entries in numpy's element-iteration order of "
+    "the state array (C order for C-contiguous arrays, memory order otherwise), for each entry one "
     "tuple per output (real direction) and, for complex entries, one more per output (imaginary direction)",
-    "arrays are C-contiguous float64/complex128; sparse inputs, integer inputs and SignalSlice outputs are not claimed",
+    "arrays are float64/complex128, C-contiguous, Fortran-ordered or reversed views; sparse inputs, integer inputs and SignalSlice outputs are not claimed",
     "signals are a Signal subclass that records direct assignments of `sensitivity` (how the seed that was used is "
     "recovered); with use_df some cases use plain pymoto.Signal and take use_df as the seed",
     "Networks are always given explicit fromsig/tosig lists (Network.sig_in/sig_out have set order) whose selected "
@@ -68,7 +69,8 @@ def strategy(tier):
             zeros = draw(st.sampled_from([0, 0, 0, 1, 2])) if allow_zero else 0
             if kind in H.SCALAR_KINDS:
                 zeros = 1 if zeros and draw(st.integers(0, 7)) == 0 else 0       # zero python scalars only rarely
-            return {"kind": kind, "cplx": bool(cplx), "shape": shape, "zeros": zeros, "seed": draw(seed)}
+            return {"kind": kind, "cplx": bool(cplx), "shape": shape, "zeros": zeros, "seed": draw(seed),
+                    "layout": draw(st.sampled_from(["C", "C", "C", "F", "rev"]))}   # memory layout of array inputs
         return f()
 
     out_shape = st.sampled_from([[], [], [1], [3], [2, 2]])
@@ -278,11 +280,33 @@ def _bits(v):
     return (bool(np.iscomplexobj(v)), complex(v).real.hex(), complex(v).imag.hex())
 
 
-def _entries(v):
-    """(multi_index, value) of an input state in C order."""
+def _entries(v, like=None):
+    """(multi_index, value) of an input state in the order numpy's element iterator visits `like` (the array object
+    held by the signal): memory order, i.e. C order for C-contiguous arrays, column-major for Fortran-ordered ones and
+    back to front for a reversed view. The property does not fix an order; the check only needs to know which entry a
+    tuple belongs to, which it then confirms through the reported x0."""
     if isinstance(v, np.ndarray):
-        return [(idx, v[idx]) for idx in np.ndindex(v.shape)]
+        if isinstance(like, np.ndarray) and like.shape == v.shape and v.ndim >= 1:
+            it = np.nditer(like, flags=["multi_index"])
+            order = []
+            while not it.finished:
+                order.append(tuple(it.multi_index))
+                it.iternext()
+        else:
+            order = list(np.ndindex(v.shape))
+        return [(idx, v[idx]) for idx in order]
     return [((), v)]
+
+
+def _relayout(v, layout):
+    """Same values, other memory layout: 'F' column-major (ndim >= 2), 'rev' a reversed view (negative stride)."""
+    if not isinstance(v, np.ndarray) or v.ndim == 0:
+        return v
+    if layout == "F" and v.ndim >= 2:
+        return np.asfortranarray(v)
+    if layout == "rev" and v.shape[0] >= 2:
+        return np.ascontiguousarray(v[::-1])[::-1]
+    return v
 
 
 def check_case(case):
@@ -313,9 +337,13 @@ def check_case(case):
     mk = (lambda tag, state=None: pym.Signal(tag, state)) if plain else TapSignal
     sig = {}
     prealloc = set()
+    layouts = dict(zip(B["sources"], [i.get("layout", "C") for i in case["inputs"]]))
     for n in B["sources"]:
         v = base[n]
-        sig[n] = mk(n, v.copy() if isinstance(v, np.ndarray) else v)
+        lay_n = layouts.get(n, "C")
+        sig[n] = mk(n, _relayout(v.copy(), lay_n) if isinstance(v, np.ndarray) else v)
+        if isinstance(v, np.ndarray) and v.ndim >= 1 and not sig[n].state.flags["C_CONTIGUOUS"]:
+            labels.append("noncontiguous_input:" + lay_n)
         if case.get("prealloc") and isinstance(v, np.ndarray) and v.ndim >= 1:
             # a source signal constructed with a pre-allocated sensitivity buffer (Signal(tag, state, sensitivity=zeros)):
             # keep_alloc is on, so reset() zeroes the buffer in place instead of dropping it
@@ -386,7 +414,7 @@ def check_case(case):
         L = []
         for n in fs:
             v = full[n]
-            for idx, val in _entries(v):
+            for idx, val in _entries(v, x_before[n]):
                 if val == 0 and keep_zero and (isinstance(v, np.ndarray) or skip_scalar_zero):
                     continue
                 for part in ("r", "i") if np.iscomplexobj(val) else ("r",):
@@ -474,7 +502,11 @@ def check_case(case):
             bad("tuples:not_finite_scalar", f"tuple {k}: an={an!r} fd={fd!r}")
             break
         an, fd = float(an), float(fd)
-        if not (complex(x0) == complex(val) and dxg == dx):
+        # source entries are reported bit-exactly; an intermediate signal was computed by the network from arrays whose
+        # memory layout may differ from the reference's (BLAS summation order): 1e-12 relative there
+        same_x0 = complex(x0) == complex(val) if n in B["sources"] else \
+            abs(complex(x0) - complex(val)) <= 1e-12 * max(1.0, abs(complex(val)))
+        if not (same_x0 and dxg == dx):
             bad("tuples:x0_dx", f"tuple {k}: reported x0={x0!r}, dx={dxg!r}; expected entry {idx} of {n} = {val!r}, dx={dx}")
             break
         sf = abs(val) if (rel and abs(val) != 0) else 1.0
